@@ -239,6 +239,19 @@ func (o *chanOp) subs() []int {
 }
 func (o *chanOp) fire(int)     { o.c.complete() }
 func (o *chanOp) desc() string { return o.c.describe() }
+func (o *chanOp) objs(int) []string { return []string{caseObj(o.c)} }
+
+// caseObj: the object a channel case touches ("real" for foreign channels: contexts, timers)
+func caseObj(c caseI) string {
+	d := c.describe()
+	if d == "recv-real" {
+		return "real"
+	}
+	if i := len("send "); len(d) > i {
+		return d[i:] // "send chN" / "recv chN" have the same prefix length
+	}
+	return d
+}
 
 func (c *Chan[T]) Send(v T) {
 	if inKill() {
@@ -271,6 +284,7 @@ func (c *Chan[T]) Close() {
 		panic("close of closed channel")
 	}
 	c.closed = true
+	touch(c.chanID())
 }
 
 func (c *Chan[T]) Len() int { return len(c.buf) }
@@ -383,6 +397,18 @@ func (s *Select) fire(sub int) {
 	if sub < len(s.cases) {
 		s.cases[sub].complete()
 	}
+}
+
+func (s *Select) objs(sub int) []string {
+	if sub < len(s.cases) {
+		return []string{caseObj(s.cases[sub])}
+	}
+	// default branch: it observed that no case was ready
+	var out []string
+	for _, c := range s.cases {
+		out = append(out, caseObj(c))
+	}
+	return out
 }
 
 func (s *Select) desc() string {
